@@ -203,6 +203,11 @@ func cleanDir(ctx context.Context, logger *slog.Logger, root *os.Root, prefix st
 		if err != nil {
 			return fmt.Errorf("failed to parse tile path %s: %w", name, err)
 		}
+		if t.L > 6 {
+			// A tile at this level spans at least 2^64 leaves, so it is always
+			// at the right edge, and the shift below would overflow.
+			continue
+		}
 		tileSize := int64(1) << (sunlight.TileHeight * (max(0, t.L) + 1))
 		if t.N >= size/tileSize {
 			continue
